@@ -2,6 +2,7 @@ import AaVerif.Aa.ParseFile
 import AaVerif.Aa.ParseCap
 import AaVerif.Aa.ParsePtrace
 import AaVerif.Aa.ParseSignal
+import AaVerif.Aa.ParseRlimit
 import AaVerif.Generated.AaTables
 /-!
 # C09 — rule text round-trips through the printer and the parser
@@ -217,6 +218,21 @@ example : (parseCommaRules false (renderRule (signalRule false true [S "send", S
     = .ok [mkRule "signal" (false, S "deny") {} [.l (mergeValues T "signal" "access" [S "send", S "receive"] []),
         .l (mergeValues T "signal" "set" [S "term", S "hup", S "term"] []), .s (S "@{p_systemd}")]] :=
   C09_signal_all false true _ _ _ (by simp) (by simp) (by decide +kernel) (by decide +kernel) (by decide +kernel)
+
+/-- **`set rlimit KEY <= VALUE,` through the library's own parser, for every keyword-like key and value**: the
+operator token `<=` is kept as a plain entry although it holds `=`, and the rule read back is the one printed -/
+theorem C09_rlimit_all (k v : Text) (hk : CapW k) (hv : CapW v) :
+    (parseCommaRules false (renderRule (rlimitRule k v) (padOf []) ++ S "\n")).bind (newRules T) =
+      .ok [mkRule "rlimit" noQ {} [.s k, .s (S "<="), .s v]] :=
+  parse_rlimit T k v hk hv
+
+example : (parseCommaRules false (renderRule (rlimitRule (S "nofile") (S "65536")) (padOf []) ++ S "\n")).bind (newRules T)
+    = .ok [mkRule "rlimit" noQ {} [.s (S "nofile"), .s (S "<="), .s (S "65536")]] :=
+  C09_rlimit_all _ _ (by decide +kernel) (by decide +kernel)
+
+/-- the rule read back is the rule printed -/
+example : mkRule "rlimit" noQ {} [.s (S "nofile"), .s (S "<="), .s (S "65536")] = rlimitRule (S "nofile") (S "65536") := by
+  decide +kernel
 
 /-! ## Whole-text round trips over the complete value tables
 
